@@ -53,6 +53,11 @@ def run_items(run, items, fname, rng, trials=10, tol=1e-8):
             else:
                 run.oblige(it.name, False, "untranslatable")
                 run.find("trace:" + it.key, f"symbolic tracing failed: {e}", it.meta, concrete=False)
+        elif w and "magic basis" in str(w.get("error", "")):
+            # numerical KAK path: input-dependent refusal of magic_decomposition (a defect class of its own)
+            run.refuted.append(it.name)
+            run.find("kak_magic_basis:" + str(it.meta.get("class", it.key)),
+                     f"{it.name}: the numerical two-qubit synthesis raises {w['error']}", {**it.meta, **w})
         elif w:
             run.refuted.append(it.name)
             run.find(("raises:" if "error" in w else "") + it.key,
